@@ -152,6 +152,8 @@ DBX = {"dbx_" + n[:-4]: [("LoadDatabase", n)] for n in (
 # setter calls
 S["sw_on"] = [("SetOutputFileOn", 1), ("SetOutputStringOn", 1), ("SetErrorFileOn", 1), ("SetLogFileOn", 1), ("SetLogStringOn", 1),
               ("SetDumpFileOn", 1), ("SetDumpStringOn", 1)]
+S["sw_errfile"] = [("SetErrorFileOn", 1)]
+S["sw_outfile"] = [("SetOutputFileOn", 1), ("SetDumpStringOn", 1)]
 S["sw_erroff"] = [("SetErrorOn", 0), ("SetErrorStringOn", 0)]
 S["names"] = [("SetOutputFileName", "o.txt"), ("SetErrorFileName", "e.txt"), ("SetLogFileName", "l.txt"), ("SetDumpFileName", "d.txt"),
               ("SetCurrentSelectedOutputUserNumber", 2), ("SetSelectedOutputFileName", "s2.txt"),
